@@ -1335,3 +1335,42 @@ def c20_n(ctx):
     ctx.check(bool(rs), al, 'otherwise the general submission rule applies',
               'return super()._allow_submit(batch_index)', '', fn=al,
               node=rs[0] if rs else al.node)
+
+
+_BSLC = 'elfi.methods.inference.bsl:BSL'
+_C20_GUARDS = [
+    (_BSLC + '._process_simulated', 'self.likelihood(*_)',
+     [('np.all(np.isfinite(self.simulated))', True)],
+     'the synthetic likelihood is evaluated only on finite simulated summaries'),
+    (_BSLC + '._process_simulated', 'assign:-np.inf',
+     [('np.all(np.isfinite(self.simulated))', False)],
+     'non-finite simulated summaries give log likelihood -inf'),
+    (_BSLC + '._process_simulated', 'self._get_mh_ratio()', [('_n == 0', False)],
+     'every state after the first is accepted through the Metropolis-Hastings ratio'),
+    (_BSLC + '._process_simulated', 'raise:0',
+     [('np.isfinite(_l)', False), ('_n == 0', True)],
+     'a non-finite likelihood is fatal only for the initial state'),
+    (_BSLC + '._get_mh_ratio', 'self._jacobian_logit_transform(*_)',
+     [('self.logit_transform_bound is not None', True)],
+     'the Jacobian ratio enters exactly when proposals are made in transformed space'),
+    (_BSLC + '._propagate_state', 'self._para_logit_back_transform(*_)',
+     [('self.logit_transform_bound is not None', True)],
+     'a transformed proposal is mapped back exactly when bounds are given'),
+    ('elfi.methods.bsl.pdf_methods:gaussian_syn_likelihood', 'graphical_lasso(*_)',
+     [("shrinkage == 'glasso'", True)], 'graphical lasso only when asked for'),
+    ('elfi.methods.bsl.pdf_methods:gaussian_syn_likelihood', 'cov_warton(*_)',
+     [("shrinkage == 'warton'", True)], 'Warton shrinkage only when asked for'),
+    ('elfi.methods.bsl.pdf_methods:gaussian_syn_likelihood', 'assign:np.matmul(whitening, _y)',
+     [('whitening is not None', True)], 'whitening only when a whitening matrix is given'),
+]
+
+
+@obligation('C20-o', 'T11', 'the BSL step and the standard likelihood choose their branches on the '
+            'right side of their tests (frozen table of {} rows)'.format(len(_C20_GUARDS)),
+            floor=len(_C20_GUARDS),
+            necessary='a likelihood evaluated on non-finite summaries, a Jacobian applied without '
+                      'a transform, or a shrinkage estimator applied when none was asked for is '
+                      'not the stated likelihood / acceptance probability')
+def c20_o(ctx):
+    from .base import check_guard_table
+    check_guard_table(ctx, _C20_GUARDS)
